@@ -56,6 +56,17 @@ type BlockPlan struct {
 	PatchPool []PoolTx `json:"patchPool,omitempty"` // insertion order into the (fresh) patch pool
 	Extra     [][]int  `json:"extra,omitempty"`     // extra lists to validate: transaction numbers
 	Finalize  bool     `json:"finalize"`            // finalize this block before the next one is proposed
+	// Keep: the node's normal pool is NOT replaced by a fresh one; Pool holds the additions only.
+	// Elements that stayed after earlier Candidate calls are looked at again.
+	Keep bool `json:"keep,omitempty"`
+	// PeerPool (non-nil): the block is made by ANOTHER proposer from this pool (a second real
+	// TransactionPool over the same TXIDManager); the node only validates, executes and finalizes it.
+	// LocalToo: the node also made its own proposal for the height (which lost the round).
+	PeerPool []PoolTx `json:"peerPool,omitempty"`
+	LocalToo bool     `json:"localToo,omitempty"`
+	// NoCleanup: the ids of the block are committed (finalizeNormalTransaction) but the node's pool has not
+	// been cleaned yet (tm.RemoveTxs / RemoveOldTxByBlockTS run after the commit) when the next Candidate runs.
+	NoCleanup bool `json:"noCleanup,omitempty"`
 }
 
 type ScenPlan struct {
@@ -143,9 +154,10 @@ type scen struct {
 	real  map[int]transaction.Transaction // the real transaction objects
 	idNum map[string]int                  // real id -> number (genesis: 0)
 
-	chain     []included // transactions of the executed blocks of the chain
-	pchain    []included // patch transactions of the executed (patched) transitions of the chain
-	unfinal   bool       // the parent block is not finalized
+	chain     []included   // transactions of the executed blocks of the chain
+	pchain    []included   // patch transactions of the executed (patched) transitions of the chain
+	looked    map[int]bool // transactions that were in the node's pool during an earlier Candidate call
+	unfinal   bool         // the parent block is not finalized
 	par, gpar module.Transition
 	parT, gpT trk
 	lastBTS   int64
@@ -271,11 +283,13 @@ func startScen(plan *ScenPlan) (*scen, error) {
 // ---------------------------------------------------------------------------
 
 type elemObs struct {
-	Num     int
-	Direct  bool
-	Err     int // class of e.err after the call
-	ErrText string
-	Removed bool
+	Num        int
+	Direct     bool
+	Prior      int  // class of e.err before the call
+	seenBefore bool // the element was in the pool during an earlier Candidate call
+	Err        int  // class of e.err after the call
+	ErrText    string
+	Removed    bool
 }
 
 type candObs struct {
@@ -293,6 +307,8 @@ type candObs struct {
 	VerdictTx string
 	Unfinal   bool // the parent block was not finalized (hypothesis of the property not met)
 	Fatal     string
+	Peer      bool // Candidate of another proposer's pool
+	RemovedOK bool // the removal flags were observed
 }
 
 type valObs struct {
@@ -306,9 +322,10 @@ type valObs struct {
 	Fatal   string
 }
 
-func (s *scen) fillPool(g module.TransactionGroup, pool []PoolTx) error {
-	tp := s.e.pools[g]
-	service.VerifC37PoolReset(tp)
+func (s *scen) fillPool(tp *service.TransactionPool, pool []PoolTx, keep bool) error {
+	if !keep {
+		service.VerifC37PoolReset(tp)
+	}
 	for i := range pool {
 		r, err := s.realOf(&pool[i].TxIn)
 		if err != nil {
@@ -319,13 +336,25 @@ func (s *scen) fillPool(g module.TransactionGroup, pool []PoolTx) error {
 	return nil
 }
 
-// poolBefore lists the pool in iteration order and keeps the element handles.
-func (s *scen) poolBefore(g module.TransactionGroup) ([]elemObs, *service.VerifC37Handle) {
-	h := service.VerifC37PoolHandle(s.e.pools[g])
+type nullMonitor struct{}
+
+func (nullMonitor) OnDropTx(n int, user bool)                         {}
+func (nullMonitor) OnAddTx(n int, user bool)                          {}
+func (nullMonitor) OnRemoveTx(n int, user bool)                       {}
+func (nullMonitor) OnCommit(id []byte, ts time.Time, d time.Duration) {}
+
+// poolBefore lists the pool in iteration order (with the e.err classes left by
+// earlier calls) and keeps the element handles.
+func (s *scen) poolBefore(tp *service.TransactionPool) ([]elemObs, *service.VerifC37Handle) {
+	h := service.VerifC37PoolHandle(tp)
 	els, _ := h.State()
 	var out []elemObs
 	for _, el := range els {
-		out = append(out, elemObs{Num: s.numOf(el.Tx.ID()), Direct: el.Direct})
+		o := elemObs{Num: s.numOf(el.Tx.ID()), Direct: el.Direct}
+		if el.HasErr {
+			o.Prior = classOfCode(el.ErrCode)
+		}
+		out = append(out, o)
 	}
 	return out, h
 }
@@ -333,22 +362,34 @@ func (s *scen) poolBefore(g module.TransactionGroup) ([]elemObs, *service.VerifC
 // poolAfter reads e.err of every element (written inside Candidate, so complete
 // when the call returns) and then waits for the removal goroutine:
 // dropTransactions removes all its elements in one critical section, so as
-// soon as one element that carries an error other than "NotEnoughBalance on a
-// direct transaction" is gone, all are.  What is still linked after 5 s is
-// reported as not removed.
-func (s *scen) poolAfter(h *service.VerifC37Handle, obs []elemObs) {
+// soon as one element is gone, all are.  Whether the goroutine was started at
+// all is decided from what Candidate left behind: a NEW e.err other than
+// "NotEnoughBalance on a direct transaction", or AlreadyProcessed (always
+// written) means yes -> wait up to 5 s and report what is observed.  An element
+// that already carried an error and is now outside the window may have been
+// dropped without a visible trace (e.err is sticky) if the loop reached it:
+// wait up to 1 s and, if nothing left the pool, report the removal flags as
+// not observed (returns false).
+func (s *scen) poolAfter(h *service.VerifC37Handle, obs []elemObs, bts, th int64) bool {
 	els, _ := h.State()
-	expect := false
+	sure, maybe := false, false
 	for i, el := range els {
 		if el.HasErr {
 			obs[i].Err = classOfCode(el.ErrCode)
 			obs[i].ErrText = el.ErrText
-			if !(obs[i].Err == cBalance && obs[i].Direct) {
-				expect = true
+			if obs[i].Prior == cOk || obs[i].Err != obs[i].Prior {
+				if !(obs[i].Err == cBalance && obs[i].Direct) {
+					sure = true
+				}
+			} else if t := s.txs[obs[i].Num]; t != nil && t.TS <= bts-th {
+				maybe = true
 			}
 		}
 	}
 	deadline := time.Now().Add(5 * time.Second)
+	if !sure {
+		deadline = time.Now().Add(1 * time.Second)
+	}
 	for {
 		_, in := h.State()
 		gone := false
@@ -358,8 +399,11 @@ func (s *scen) poolAfter(h *service.VerifC37Handle, obs []elemObs) {
 				gone = true
 			}
 		}
-		if !expect || gone || time.Now().After(deadline) {
-			return
+		if gone || (!sure && !maybe) {
+			return true
+		}
+		if time.Now().After(deadline) {
+			return sure
 		}
 		time.Sleep(200 * time.Microsecond)
 	}
@@ -393,10 +437,11 @@ func (s *scen) recordTransition(parent trk, bts int64, nums []int, force bool) t
 // ---------------------------------------------------------------------------
 
 type blockOut struct {
-	Patch  *candObs
-	Normal *candObs
-	Extra  []*valObs
-	Stop   bool
+	Patch    *candObs
+	Normal   *candObs
+	PeerCand *candObs
+	Extra    []*valObs
+	Stop     bool
 }
 
 func (s *scen) runBlock(bp *BlockPlan, height int) (*blockOut, error) {
@@ -407,7 +452,7 @@ func (s *scen) runBlock(bp *BlockPlan, height int) (*blockOut, error) {
 
 	// ---- patch group: GetPatches(bn.in) + PatchTransition(bn.preexe)
 	if len(bp.PatchPool) > 0 {
-		if err := s.fillPool(module.TransactionGroupPatch, bp.PatchPool); err != nil {
+		if err := s.fillPool(e.pools[module.TransactionGroupPatch], bp.PatchPool, false); err != nil {
 			return nil, err
 		}
 		o := &candObs{Group: false, H: append([]string(nil), s.ops...), P: s.gpT.p, BTS: bp.BTS,
@@ -415,9 +460,9 @@ func (s *scen) runBlock(bp *BlockPlan, height int) (*blockOut, error) {
 		o.Snap = s.snapshot()
 		o.Bal = s.balances(s.gpar)
 		var ph *service.VerifC37Handle
-		o.Pool, ph = s.poolBefore(module.TransactionGroupPatch)
+		o.Pool, ph = s.poolBefore(e.pools[module.TransactionGroupPatch])
 		patches := e.sm.GetPatches(s.gpar, bi)
-		s.poolAfter(ph, o.Pool)
+		o.RemovedOK = s.poolAfter(ph, o.Pool, bp.BTS, patchTh)
 		o.Sel = txList(s, patches)
 		pt := e.sm.PatchTransition(s.par, patches, bi)
 		v, x, f := runTransition(pt, true)
@@ -445,28 +490,85 @@ func (s *scen) runBlock(bp *BlockPlan, height int) (*blockOut, error) {
 		}
 	}
 
-	// ---- normal group: ProposeTransition
-	if err := s.fillPool(module.TransactionGroupNormal, bp.Pool); err != nil {
+	// ---- normal group: ProposeTransition on the node's own pool and / or on another proposer's pool
+	local := e.pools[module.TransactionGroupNormal]
+	if err := s.fillPool(local, bp.Pool, bp.Keep); err != nil {
 		return nil, err
 	}
-	o := &candObs{Group: true, H: append([]string(nil), s.ops...), P: s.parT.n, BTS: bp.BTS,
-		MaxBytes: bp.MaxBytes, MaxCount: bp.MaxCount, Unfinal: s.unfinal}
-	o.Snap = s.snapshot()
-	o.Bal = s.balances(s.par)
-	var nh *service.VerifC37Handle
-	o.Pool, nh = s.poolBefore(module.TransactionGroupNormal)
-	P, err := e.sm.ProposeTransition(s.par, bi, e.csi)
-	if err != nil {
-		return nil, fmt.Errorf("ProposeTransition: %v", err)
+	propose := func(tp *service.TransactionPool, peer bool) (*candObs, module.Transition, error) {
+		o := &candObs{Group: true, H: append([]string(nil), s.ops...), P: s.parT.n, BTS: bp.BTS,
+			MaxBytes: bp.MaxBytes, MaxCount: bp.MaxCount, Unfinal: s.unfinal, Peer: peer}
+		o.Snap = s.snapshot()
+		o.Bal = s.balances(s.par)
+		var nh *service.VerifC37Handle
+		o.Pool, nh = s.poolBefore(tp)
+		if !peer {
+			if s.looked == nil {
+				s.looked = map[int]bool{}
+			}
+			for i := range o.Pool {
+				o.Pool[i].seenBefore = bp.Keep && s.looked[o.Pool[i].Num]
+				s.looked[o.Pool[i].Num] = true
+			}
+		}
+		P, err := e.sm.ProposeTransition(s.par, bi, e.csi)
+		if err != nil {
+			return nil, nil, fmt.Errorf("ProposeTransition: %v", err)
+		}
+		o.RemovedOK = s.poolAfter(nh, o.Pool, bp.BTS, normalTh(&s.plan.P))
+		o.Sel = txList(s, P.NormalTransactions())
+		return o, P, nil
 	}
-	s.poolAfter(nh, o.Pool)
-	o.Sel = txList(s, P.NormalTransactions())
-	out.Normal = o
+	var o, po *candObs
+	var P module.Transition
+	var err error
+	if bp.PeerPool == nil || bp.LocalToo {
+		if o, P, err = propose(local, false); err != nil {
+			return nil, err
+		}
+		out.Normal = o
+	}
+	if bp.PeerPool != nil {
+		peer := service.NewTransactionPool(module.TransactionGroupNormal, 5000, service.VerifC37TIM(e.sm),
+			nullMonitor{}, e.chain.Logger())
+		if err := s.fillPool(peer, bp.PeerPool, false); err != nil {
+			return nil, err
+		}
+		service.VerifC37SwapPool(e.sm, module.TransactionGroupNormal, peer)
+		var PP module.Transition
+		po, PP, err = propose(peer, true)
+		service.VerifC37SwapPool(e.sm, module.TransactionGroupNormal, local)
+		if err != nil {
+			return nil, err
+		}
+		out.PeerCand = po
+		if o != nil {
+			// the node's own proposal lost the round: its list only goes through the validator
+			xt, err := e.sm.CreateTransition(s.par, P.NormalTransactions(), bi, e.csi, false)
+			if err != nil {
+				return nil, err
+			}
+			v, _, f := runTransition(xt, false)
+			if f != nil {
+				o.Fatal = f.Error()
+			}
+			o.Verdict = classOfErr(v)
+			if v != nil {
+				o.VerdictTx = v.Error()
+			}
+			s.recordTransition(s.parT, bp.BTS, o.Sel, false)
+		}
+		P = PP
+	}
+	bo := o // the observation whose list becomes the block
+	if po != nil {
+		bo = po
+	}
 
 	// ---- extra lists through the validator (before anything is finalized)
 	for _, nums := range bp.Extra {
-		vo := &valObs{H: append([]string(nil), s.ops...), Snap: o.Snap, P: s.parT.n, BTS: bp.BTS,
-			Txs: nums, Bal: o.Bal}
+		vo := &valObs{H: append([]string(nil), s.ops...), Snap: bo.Snap, P: s.parT.n, BTS: bp.BTS,
+			Txs: nums, Bal: bo.Bal}
 		var l []module.Transaction
 		for _, n := range nums {
 			r, ok := s.real[n]
@@ -488,25 +590,25 @@ func (s *scen) runBlock(bp *BlockPlan, height int) (*blockOut, error) {
 		out.Extra = append(out.Extra, vo)
 	}
 
-	// ---- the proposed list through the validator, then execution
+	// ---- the block's list through the validator, then execution
 	V, err := e.sm.CreateTransition(s.par, P.NormalTransactions(), bi, e.csi, false)
 	if err != nil {
 		return nil, err
 	}
 	v, x, f := runTransition(V, true)
 	if f != nil {
-		o.Fatal = f.Error()
+		bo.Fatal = f.Error()
 	}
-	o.Verdict = classOfErr(v)
+	bo.Verdict = classOfErr(v)
 	if v != nil {
-		o.VerdictTx = v.Error()
+		bo.VerdictTx = v.Error()
 	}
-	vt := s.recordTransition(s.parT, bp.BTS, o.Sel, false)
+	vt := s.recordTransition(s.parT, bp.BTS, bo.Sel, false)
 	if v != nil || x != nil || f != nil {
 		out.Stop = true
 		return out, nil
 	}
-	for _, n := range o.Sel {
+	for _, n := range bo.Sel {
 		s.chain = append(s.chain, included{tx: s.txs[n], block: height})
 	}
 	if s.unfinal {
@@ -520,7 +622,14 @@ func (s *scen) runBlock(bp *BlockPlan, height int) (*blockOut, error) {
 			return nil, fmt.Errorf("Finalize(parent): %v", err)
 		}
 		s.opCommit(s.parT.p)
-		if err := e.sm.Finalize(V, module.FinalizeNormalTransaction); err != nil {
+		if bp.NoCleanup {
+			// service.Manager.Finalize = finalizeNormalTransaction (ids committed) and THEN
+			// tm.RemoveTxs / RemoveOldTxByBlockTS; this is the state in between
+			err = service.FinalizeTransition(V, module.FinalizeNormalTransaction, false)
+		} else {
+			err = e.sm.Finalize(V, module.FinalizeNormalTransaction)
+		}
+		if err != nil {
 			return nil, fmt.Errorf("Finalize(block): %v", err)
 		}
 		s.opCommit(vt.n)
@@ -704,9 +813,10 @@ const (
 )
 
 func (s *scen) coqCand(o *candObs, how corrupt) string {
-	var pool, errs, rem []string
+	var pool, perr, errs, rem []string
 	for _, el := range o.Pool {
 		pool = append(pool, fmt.Sprintf("(E %s %s)", s.coqTx(el.Num), hxlib.CoqBool(el.Direct)))
+		perr = append(perr, fmt.Sprint(el.Prior))
 		errs = append(errs, fmt.Sprint(el.Err))
 		rem = append(rem, hxlib.CoqBool(el.Removed))
 	}
@@ -730,10 +840,14 @@ func (s *scen) coqCand(o *candObs, how corrupt) string {
 			}
 		}
 	}
-	return fmt.Sprintf("CCand %s %s %s %s %s %s %s %s %s %s %s %s %s (Some %s) %d",
+	removed := "None"
+	if o.RemovedOK {
+		removed = "(Some " + hxlib.CoqList(rem) + ")"
+	}
+	return fmt.Sprintf("CCand %s %s %s %s %s %s %s %s %s %s %s %s %s %s %s %d",
 		hxlib.CoqList(o.H), coqSnap(o.Snap), hxlib.CoqNat(o.P), s.coqFee(), hxlib.CoqBool(o.Group),
 		z(s.plan.P.ThMS), z(o.BTS), z(o.MaxBytes), z(o.MaxCount),
-		hxlib.CoqList(pool), coqBal(o.Bal), coqInts(sel), hxlib.CoqList(errs), hxlib.CoqList(rem), verdict)
+		hxlib.CoqList(pool), hxlib.CoqList(perr), coqBal(o.Bal), coqInts(sel), hxlib.CoqList(errs), removed, verdict)
 }
 
 func (s *scen) coqVal(o *valObs) string {
@@ -776,8 +890,9 @@ func genParams(r *rand.Rand) Params {
 }
 
 type genState struct {
-	r    *rand.Rand
-	next int // next transaction number
+	r       *rand.Rand
+	next    int  // next transaction number
+	persist bool // scenario with a persistent pool: several Candidate calls on the same elements
 }
 
 func (g *genState) ts(bts, th int64) int64 {
@@ -902,6 +1017,9 @@ func (g *genState) genBlock(s *scen, idx, total int) BlockPlan {
 		bp.BTS = 1_000_000_000 + r.Int63n(1000)*1000 + r.Int63n(3)
 	} else {
 		bp.BTS = s.lastBTS + pick64(r, 1, 2, 500, th/2, th-1, th, th+1, 2*th, 2*th+1, 3*th, 5*th)
+		if g.persist && r.Intn(4) != 0 {
+			bp.BTS = s.lastBTS + pick64(r, 1, 2, 500, th/4, th/2) // what stayed in the pool is still inside the window
+		}
 	}
 	n := r.Intn(13)
 	if r.Intn(10) == 0 {
@@ -934,6 +1052,32 @@ func (g *genState) genBlock(s *scen, idx, total int) BlockPlan {
 	bp.Finalize = true
 	if idx == total-2 && r.Intn(4) == 0 {
 		bp.Finalize = false // the next block is proposed on an unfinalized parent
+	}
+	if g.persist {
+		bp.Keep = idx > 0
+		if bp.Keep && len(bp.Pool) > 4 {
+			bp.Pool = bp.Pool[:1+r.Intn(4)] // a few additions; the rest of the pool is what stayed
+		}
+		bp.NoCleanup = r.Intn(2) == 0
+		if r.Intn(3) == 0 {
+			// another proposer's block: some of this node's pool (also elements that stayed after an
+			// earlier look), some transactions this node has never seen
+			bp.PeerPool = []PoolTx{}
+			stayed, _ := s.poolBefore(s.e.pools[module.TransactionGroupNormal])
+			for _, el := range stayed {
+				if t := s.txs[el.Num]; t != nil && r.Intn(2) == 0 {
+					bp.PeerPool = append(bp.PeerPool, PoolTx{TxIn: *t, Direct: r.Intn(2) == 0})
+				}
+			}
+			for i := range bp.Pool {
+				if r.Intn(2) == 0 {
+					bp.PeerPool = append(bp.PeerPool, bp.Pool[i])
+				}
+			}
+			bp.PeerPool = append(bp.PeerPool, g.genPool(s, bp.BTS, false, r.Intn(4))...)
+			r.Shuffle(len(bp.PeerPool), func(i, j int) { bp.PeerPool[i], bp.PeerPool[j] = bp.PeerPool[j], bp.PeerPool[i] })
+			bp.LocalToo = r.Intn(2) == 0
+		}
 	}
 	return bp
 }
@@ -1053,6 +1197,10 @@ func runScenario(plan *ScenPlan, g *genState, nBlocks int, sink func(em emitted)
 			sink(emitted{kind: "normal", block: idx, cand: out.Normal, s: s,
 				oracle: s.oracleCand(out.Normal, chainBefore)})
 		}
+		if out.PeerCand != nil {
+			sink(emitted{kind: "peer", block: idx, cand: out.PeerCand, s: s,
+				oracle: s.oracleCand(out.PeerCand, chainBefore)})
+		}
 		for k, vo := range out.Extra {
 			or := ""
 			if vo.Fatal != "" {
@@ -1072,8 +1220,17 @@ func candKind(o *candObs) string {
 	if !o.Group {
 		k = "cand-patch"
 	}
+	if o.Peer {
+		k = "cand-peer"
+	}
 	if o.Unfinal {
 		k += "-unfinalized-parent"
+	}
+	for _, el := range o.Pool {
+		if el.Prior != cOk || el.seenBefore {
+			k += "-again"
+			break
+		}
 	}
 	var tags []string
 	has := map[int]bool{}
@@ -1101,7 +1258,11 @@ func gen(c *hxlib.Ctx) {
 	for i := 0; i < scenarios; i++ {
 		plan := &ScenPlan{P: genParams(c.Rand)}
 		g.next = 1
+		g.persist = i%2 == 1
 		nBlocks := 1 + c.Rand.Intn(5)
+		if g.persist {
+			nBlocks = 2 + c.Rand.Intn(4)
+		}
 		err := runScenario(plan, g, nBlocks, func(em emitted) {
 			in := replayIn{Plan: *plan, Block: em.block, Kind: em.kind, Extra: em.extra}
 			// the plan grows while the scenario runs: copy the blocks seen so far
@@ -1167,7 +1328,7 @@ func replay(raw json.RawMessage) string {
 func main() {
 	hxlib.Main(hxlib.Spec{
 		ID:       "C37",
-		Rule:     "scenarios on a real service.Manager (real pools, TXIDManager, locator manager, transitions; basic platform; in-memory db): genesis with random balances (0, tight, large), step price {0,1,7,10,1000}, step costs, timestamp threshold {default 5 min, 1, 2, 5, 50 ms}; 1..5 blocks with block timestamps stepping by {1, 2, 500, th/2, th-1, th, th+1, 2th, 2th+1, 3th, 5th} (eviction, maxTSInDB); per block a fresh pool of 0..12 signed v3 transactions (timestamps at bts-th-1, bts-th, bts-th+1, bts+-1, bts+th-1, bts+th, bts+th+1, inside, far outside; four shared senders with values that exhaust / exceed by one / leave one of the working balance; recipients that spend what they just received; from = to; step limits at minimum, minimum-1; message data; transactions of earlier blocks offered again; the same transaction added twice), limits at prefix sums of the sizes +-1, counts 1..4, defaults (<= 0); one block in four followed by a block proposed on an unfinalized parent; every second block after the first with a patch-group pool (patch transactions of earlier patched transitions offered again); plus extra lists (whole pool, duplicate, reversed, foreign element, chain transaction) through the validator only. non-trivial = a pool of >= 2 elements from which Candidate selects some but not all (finalized parent) / a non-empty extra list; distinct = distinct Coq case term",
+		Rule:     "scenarios on a real service.Manager (real pools, TXIDManager, locator manager, transitions; basic platform; in-memory db): genesis with random balances (0, tight, large), step price {0,1,7,10,1000}, step costs, timestamp threshold {default 5 min, 1, 2, 5, 50 ms}; 1..5 blocks with block timestamps stepping by {1, 2, 500, th/2, th-1, th, th+1, 2th, 2th+1, 3th, 5th} (eviction, maxTSInDB); per block a fresh pool of 0..12 signed v3 transactions (timestamps at bts-th-1, bts-th, bts-th+1, bts+-1, bts+th-1, bts+th, bts+th+1, inside, far outside; four shared senders with values that exhaust / exceed by one / leave one of the working balance; recipients that spend what they just received; from = to; step limits at minimum, minimum-1; message data; transactions of earlier blocks offered again; the same transaction added twice), limits at prefix sums of the sizes +-1, counts 1..4, defaults (<= 0); every second scenario keeps the node's pool across blocks (elements that stayed after an earlier Candidate call — kept NotEnoughBalance, not reached, oversize, future — are examined again; block timestamps then mostly step by {1, 2, 500, th/4, th/2}), one block in three of those is made by another proposer (second real pool over the same TXIDManager, holding some of the node's elements and unknown ones; in half of them the node also proposes and loses), and in half of the blocks the next Candidate runs after the block's ids were committed but before the pool was cleaned (FinalizeTransition instead of Manager.Finalize); one block in four followed by a block proposed on an unfinalized parent; every second block after the first with a patch-group pool (patch transactions of earlier patched transitions offered again); plus extra lists (whole pool, duplicate, reversed, foreign element, chain transaction) through the validator only. non-trivial = a pool of >= 2 elements from which Candidate selects some but not all (finalized parent) / a non-empty extra list; distinct = distinct Coq case term",
 		Preamble: "From Goloop Require Import lib.Bytes Model_Locator Model_TxPool.\nFrom GoloopRun Require Import Run_C37.",
 		Gen:      gen, Replay: replay, Shard: 130,
 	})
